@@ -239,6 +239,12 @@ def val_from_model(v):
         if 'obj' in v:
             return S.Tok('m', v['obj'])
         if 'dec' in v:
+            if v.get('nan'):
+                return Decimal('NaN')
+            if v.get('finite') is False:
+                return Decimal('Infinity')
+            if 'num' in v:
+                return Decimal(v['num'])
             return Decimal(abs(hash(v['dec'])) % 97) / 8
         if 'date_ordinal' in v:
             o = v['date_ordinal']
